@@ -1007,7 +1007,7 @@ def check_gen_determinism(prop, tier, seed, repo, keep):
         # 1. repeated fresh processes
         chosen = [s for s in sets if s['family'] in ('matrix', 'oneofs', 'maps', 'xpkg', 'wkt', 'regen', 'random', 'nest', 'opts')]
         if tier == 'quick':
-            chosen = [s for s in chosen if s['name'] in ('matrix-w2', 'matrix-m1', 'oneofs', 'xpkg-all', 'wkt', 'regen-regentestpb', 'regen-regentest3', 'nest', 'opts') or s['family'] == 'random']
+            chosen = [s for s in chosen if s['name'] in ('matrix-w2', 'matrix-m1', 'oneofs', 'xpkg-all', 'xpkg-import-public', 'wkt', 'regen-regentestpb', 'regen-regentest3', 'nest', 'opts') or s['family'] == 'random']
         base = {}
         with cf.ThreadPoolExecutor(max_workers=NCPU) as ex:
             jobs = {}
@@ -1030,7 +1030,7 @@ def check_gen_determinism(prop, tier, seed, repo, keep):
                         break
         # 1b. parameter strings: every spelling of the feature list (and path mode), each repeated in fresh processes
         params = ['features=protoc+fast', 'features=fast+protoc', 'features=all', 'features=fast', 'features=protoc',
-                  'paths=source_relative,features=protoc+fast', 'features=protoc+fast,paths=import', '']
+                  'paths=source_relative,features=protoc+fast', 'features=protoc+fast,paths=import', 'pool=example.com/x/y.Msg', '']
         prep = 32 if tier == 'quick' else 96
         pjobs = {}
         with cf.ThreadPoolExecutor(max_workers=NCPU) as ex:
